@@ -91,9 +91,35 @@ def _deletes_files(fn: ast.AST, cls: ast.ClassDef | None, depth: int = 0) -> boo
     return found
 
 
+def _tmp_of(node: ast.AST, env, depth=0) -> str | None:
+    """kind of `X.with_name(X.name + ".tmp")` / `X.with_suffix(X.suffix + ".tmp")` / `X.parent / (X.name + ".tmp")` /
+    `Path(str(X) + ".tmp")`: the temporary next to X"""
+    t = ast.unparse(node).replace(" ", "")
+    import re as _re
+    for pat in (r"^(\w+)\.with_name\(\1\.name\+'\.tmp'\)$", r"^(\w+)\.with_suffix\(\1\.suffix\+'\.tmp'\)$",
+                r"^(\w+)\.parent/\(\1\.name\+'\.tmp'\)$", r"^(?:pathlib\.)?Path\(str\((\w+)\)\+'\.tmp'\)$",
+                r"^str\((\w+)\)\+'\.tmp'$"):
+        m = _re.match(pat, t)
+        if m and m.group(1) in env:
+            k = path_kind(env[m.group(1)], env, depth + 1)
+            if k in (".model", ".last"):
+                return k + "Tmp"
+    return None
+
+
+def save_table_x(fn: ast.FunctionDef, cls: ast.ClassDef | None = None) -> list[tuple[str, int | None]]:
+    """the statement table with, for every statement, the index from which an exception makes it run while unwinding
+    (`with` exits, `finally` clauses), or None"""
+    rows = save_table(fn, cls)
+    unw = getattr(save_table, "last_unwind", {})
+    return [(r, unw.get(i)) for i, r in enumerate(rows)]
+
+
 def save_table(fn: ast.FunctionDef, cls: ast.ClassDef | None = None) -> list[str]:
     env: dict[str, ast.AST] = {}
     out: list[str] = []
+    unwind: dict[int, int] = {}
+    save_table.last_unwind = unwind
 
     def handle_call(c: ast.Call, open_files: dict[str, str]):
         f = ast.unparse(c.func)
@@ -121,6 +147,80 @@ def save_table(fn: ast.FunctionDef, cls: ast.ClassDef | None = None) -> list[str
                 and f not in ("os.replace",) and not f.startswith("datetime"):
             raise Untranslatable(f"file operation `{ast.unparse(c)}` is not understood")
 
+    def inline_context_manager(ce: ast.Call, as_var, opened) -> list[tuple[str, bool]]:
+        """`with self.m(path, …) as f:` for a generator-based context manager `m` of the same class: emits the set-up
+        (`open` of the temporary next to `path`) and returns the statements after the `yield` as (row, runs-on-unwinding)"""
+        m = next((b for b in cls.body if isinstance(b, ast.FunctionDef) and b.name == ast.unparse(ce.func)[5:]), None)
+        if m is None or not any("contextmanager" in ast.unparse(d) for d in m.decorator_list):
+            raise Untranslatable(f"unknown context manager `{ast.unparse(ce)}`")
+        params = [a.arg for a in m.args.args if a.arg not in ("self", "cls")]
+        menv = dict(env)
+        for name, arg in zip(params, ce.args):
+            menv[name] = arg if not isinstance(arg, ast.Name) else env.get(arg.id, arg)
+        yields = [n for n in ast.walk(m) if isinstance(n, (ast.Yield, ast.YieldFrom))]
+        if len(yields) != 1:
+            raise Untranslatable("context manager with several yields")
+        fvar = None
+        post: list[tuple[str, bool]] = []
+        seen_yield = False
+
+        def kind_of(node):
+            k = _tmp_of(node, menv)
+            if k:
+                return k
+            if isinstance(node, ast.Name) and node.id in menv and node.id not in params:
+                k = _tmp_of(menv[node.id], menv)
+                if k:
+                    return k
+            return path_kind(node, menv)
+
+        def after(stmts, on_unwind):
+            for st2 in stmts:
+                for c in sorted((n for n in ast.walk(st2) if isinstance(n, ast.Call)), key=lambda n: (n.lineno, n.col_offset)):
+                    f = ast.unparse(c.func)
+                    if f in ("os.replace", "os.rename", "shutil.move") and len(c.args) == 2:
+                        post.append((f".replace {kind_of(c.args[0])} {kind_of(c.args[1])}", on_unwind))
+                    elif isinstance(c.func, ast.Attribute) and c.func.attr == "close" and ast.unparse(c.func.value) == fvar[0]:
+                        post.append((f".closeF {fvar[1]}", on_unwind))
+                    elif f in _DELETES or f in _WRITES or (isinstance(c.func, ast.Attribute) and c.func.attr in
+                                                         ("unlink", "write", "write_text", "write_bytes", "rename", "replace")):
+                        raise Untranslatable(f"`{ast.unparse(c)[:60]}` in the exit part of a context manager")
+
+        for st2 in m.body:
+            if isinstance(st2, ast.Expr) and isinstance(st2.value, ast.Constant):
+                continue
+            has_yield = any(isinstance(n, (ast.Yield, ast.YieldFrom)) for n in ast.walk(st2))
+            if not seen_yield and not has_yield:
+                if isinstance(st2, ast.Assign) and len(st2.targets) == 1 and isinstance(st2.targets[0], ast.Name):
+                    v = st2.value
+                    if isinstance(v, ast.Call) and ast.unparse(v.func) == "open" and v.args:
+                        k = kind_of(v.args[0])
+                        out.append(f".openW {k}")
+                        fvar = (st2.targets[0].id, k)
+                    else:
+                        menv[st2.targets[0].id] = v
+                elif any(isinstance(n, ast.Call) and ast.unparse(n.func) in ("open",) + _WRITES + _DELETES for n in ast.walk(st2)):
+                    raise Untranslatable("file operation in the set-up of a context manager")
+            elif has_yield:
+                seen_yield = True
+                if fvar is None:
+                    raise Untranslatable("context manager does not open a file before yielding")
+                if isinstance(st2, ast.Try):
+                    if not any(isinstance(n, (ast.Yield, ast.YieldFrom)) for b in st2.body for n in ast.walk(b)):
+                        raise Untranslatable("yield outside the try body")
+                    if any(isinstance(n, ast.Call) for h in st2.handlers for n in ast.walk(h) if isinstance(n, ast.Call)
+                           and ast.unparse(n.func) in _WRITES + _DELETES):
+                        raise Untranslatable("file operation in an except handler of a context manager")
+                    after(st2.orelse, False)
+                    after(st2.finalbody, True)
+                elif not (isinstance(st2, ast.Expr) and isinstance(st2.value, ast.Yield)):
+                    raise Untranslatable("unexpected statement around the yield")
+            else:
+                after([st2], False)
+        if isinstance(as_var, ast.Name):
+            opened[as_var.id] = fvar[1]
+        return post
+
     def walk(stmts, open_files):
         for st in stmts:
             if isinstance(st, ast.Assign) and len(st.targets) == 1 and isinstance(st.targets[0], ast.Name):
@@ -128,6 +228,7 @@ def save_table(fn: ast.FunctionDef, cls: ast.ClassDef | None = None) -> list[str
             if isinstance(st, ast.With):
                 opened = dict(open_files)
                 kinds = []
+                post: list[tuple[str, bool]] = []
                 for item in st.items:
                     ce = item.context_expr
                     if isinstance(ce, ast.Call) and ast.unparse(ce.func) == "open" and ce.args:
@@ -140,12 +241,31 @@ def save_table(fn: ast.FunctionDef, cls: ast.ClassDef | None = None) -> list[str
                         out.append(f".openW {k}")
                         if isinstance(item.optional_vars, ast.Name):
                             opened[item.optional_vars.id] = k
+                    elif isinstance(ce, ast.Call) and ast.unparse(ce.func).startswith("self.") and cls is not None:
+                        post = inline_context_manager(ce, item.optional_vars, opened)
                     else:
                         raise Untranslatable(f"unknown context manager `{ast.unparse(ce)}`")
+                start = len(out)
                 walk(st.body, opened)
                 for k in reversed(kinds):
+                    unwind[len(out)] = start
                     out.append(f".closeF {k}")
-            elif isinstance(st, (ast.If, ast.For, ast.While, ast.Try)):
+                for row, on_unwind in post:
+                    if on_unwind:
+                        unwind[len(out)] = start
+                    out.append(row)
+            elif isinstance(st, ast.Try):
+                start = len(out)
+                walk(st.body, open_files)
+                walk(st.orelse, open_files)
+                if any(isinstance(n, ast.Call) and (ast.unparse(n.func) in _WRITES + _DELETES or ast.unparse(n.func) == "open")
+                       for h in st.handlers for n in ast.walk(h)):
+                    raise Untranslatable("file operation in an except handler of save")
+                fstart = len(out)
+                walk(st.finalbody, open_files)
+                for i in range(fstart, len(out)):
+                    unwind[i] = start
+            elif isinstance(st, (ast.If, ast.For, ast.While)):
                 before = len(out)
                 walk(st.body, open_files)
                 walk(getattr(st, "orelse", []), open_files)
@@ -172,11 +292,16 @@ def _save_extra():
         tree = parse_file(REPO / CK)
         fn = find_function(tree, "Checkpointer.save")
         rows = save_table(fn, checkpointer_class(tree))
+        unw = dict(save_table.last_unwind)
+        xrows = ", ".join(f"⟨{r}, {'some ' + str(unw[i]) if i in unw else 'none'}⟩" for i, r in enumerate(rows))
         return (f"/-- translated from `{CK}`:`Checkpointer.save` (order of the file operations) -/\n"
-                f"def {name} : List Ckpt.Stmt := [{', '.join(rows)}]\n"), {name: "translated"}
+                f"def {name} : List Ckpt.Stmt := [{', '.join(rows)}]\n\n"
+                f"/-- … with the `with` / `try … finally` structure: which statements also run while an exception unwinds -/\n"
+                f"def saveStmtsX : List Ckpt.XStmt := [{xrows}]\n"), {name: "translated", "saveStmtsX": "translated"}
     except Untranslatable as e:
         return (f"/-- SKIPPED ({e}); stands for the hand-written table -/\n"
-                f"def {name} : List Ckpt.Stmt := Ckpt.saveTable\n"), {name: f"skipped: {e}"}
+                f"def {name} : List Ckpt.Stmt := Ckpt.saveTable\n\n"
+                f"def saveStmtsX : List Ckpt.XStmt := Ckpt.saveTableX\n"), {name: f"skipped: {e}", "saveStmtsX": f"skipped: {e}"}
 
 
 # --------------------------------------------------------------------------------------------------
@@ -543,6 +668,37 @@ def _solver_steps(fn: ast.FunctionDef) -> str:
     return f"C15E.pyRange {a} {b_} {c}"
 
 
+def _try_events() -> str:
+    """loop-table events lexically inside the `try` of training_loop whose handlers catch ProcessKilledException
+    (methods of Engine called there are followed)"""
+    from .c16 import _main_loop, classify_call
+
+    tree = parse_file(REPO / E)
+    fn = find_function(tree, "Engine.training_loop")
+    cls = next((n for n in ast.walk(tree) if isinstance(n, ast.ClassDef) and n.name == "Engine"), None)
+    tries = [n for n in ast.walk(_main_loop(fn)) if isinstance(n, ast.Try)
+             and any("ProcessKilledException" in ast.unparse(h.type) for h in n.handlers if h.type is not None)]
+    if len(tries) != 1:
+        raise Untranslatable("expected exactly one try … except ProcessKilledException in the training loop")
+    evs: list[str] = []
+
+    def collect(stmts, depth):
+        for st in stmts:
+            for c in sorted((n for n in ast.walk(st) if isinstance(n, ast.Call)), key=lambda n: (n.lineno, n.col_offset)):
+                ev = classify_call(c)
+                if ev:
+                    if ev not in evs:
+                        evs.append(ev)
+                    continue
+                f = ast.unparse(c.func)
+                if f.startswith("self.") and f.count(".") == 1 and cls is not None and depth < 3:
+                    m = next((b for b in cls.body if isinstance(b, ast.FunctionDef) and b.name == f[5:]), None)
+                    if m is not None:
+                        collect(m.body, depth + 1)
+    collect(tries[0].body, 0)
+    return "[" + ", ".join(evs) + "]"
+
+
 def engine_facts() -> dict[str, str]:
     """Lean terms of the structural facts, or the reason they could not be read (`!…`)"""
     out: dict[str, str] = {}
@@ -560,6 +716,7 @@ def engine_facts() -> dict[str, str]:
     attempt("valTail", lambda: _val_tail(find_function(parse_file(REPO / E), "Engine.validation_loop")))
     attempt("apiFacts", _api_facts)
     attempt("solver_steps", lambda: _solver_steps(find_function(parse_file(REPO / T), "setup_train")))
+    attempt("tryEvents", _try_events)
     return out
 
 
@@ -568,6 +725,7 @@ _FACT_TYPES = {
     "initTable": ("List C15E.InitBranch", "C15E.initTable", E + "`:`Engine.train"),
     "valTail": ("C15E.ValTail", "C15E.valTail", E + "`:`Engine.validation_loop"),
     "apiFacts": ("C15E.ApiFacts", "C15E.apiFacts", CK + "` / `" + E),
+    "tryEvents": ("List Train.Ev", "C15E.tryEvents", E + "`:`Engine.training_loop"),
 }
 
 
